@@ -392,6 +392,16 @@ func child(v *Val) *Val {
 }
 
 func (e *env) buildAll(vs []Val) []interface{} {
+	if len(vs) == 1 && vs[0].K == "shared" {
+		// an argument list that several tasks pass as args... at the same
+		// time: the callee sees the caller's slice itself
+		if list, ok := sharedVal(vs[0].I).([]interface{}); ok && sharedIsArgs(vs[0].I) {
+			if e.t != nil {
+				e.stats.Extra["shared_argument_lists_passed"]++
+			}
+			return list
+		}
+	}
 	r := make([]interface{}, len(vs))
 	for i := range vs {
 		r[i] = e.build(&vs[i])
